@@ -44,6 +44,24 @@ def gen_spill_fn(rng, name, n, shape):
         lines, acc = chunked_sum(["v%d" % i for i in range(n)])
         body += lines + "    s + " + acc + "\n"
         ev = lambda a, b: sum(i * a for i in range(b)) + sum(val(i, a, b) for i in range(n))
+    elif shape == "loopspill":
+        # n values live ACROSS the loop back edge (defined before, used after) and m temporaries that are all live
+        # at once INSIDE the loop body; >= 3 iterations: a slot shared between a live-across value and a
+        # temporary of the body gives a wrong result
+        m = 40
+        ws = [rng.randint(1, 9) for _ in range(m)]
+        body = "".join("    let v%d: u64 = a * %d + b + %d;\n" % (i, cs[i][0], cs[i][1]) for i in range(n))
+        body += "    let mut i: u64 = 0;\n    let mut s: u64 = 1;\n    while i < b {\n"
+        body += "".join("        let w%d: u64 = s + i * %d + 1;\n" % (j, ws[j]) for j in range(m))
+        lines, acc = chunked_sum(["w%d" % j for j in range(m)], indent="        ")
+        body += lines + "        s = " + acc + " % 1000003;\n        i = i + 1;\n    }\n"
+        lines, acc = chunked_sum(["v%d" % i for i in range(n)])
+        body += lines + "    s + " + acc + "\n"
+        def ev(a, b):
+            s_ = 1
+            for i in range(b):
+                s_ = sum(s_ + i * w + 1 for w in ws) % 1000003
+            return s_ + sum(val(i, a, b) for i in range(n))
     else:  # right-nested xor: every left operand stays live
         n = min(n, 50)
         expr = "(a * %d + b + %d)" % cs[n - 1]
@@ -57,15 +75,16 @@ def gen_spill_fn(rng, name, n, shape):
     return "#[inline(never)]\nfn %s(a: u64, b: u64) -> u64 {\n%s}\n" % (name, body), ev
 
 
-def gen_spill_pkg(rng, base, name, nfn, shapes=("locals", "nested", "loop", "locals")):
+def gen_spill_pkg(rng, base, name, nfn, shapes=("locals", "nested", "loop", "loopspill")):
     """debug builds keep locals in memory, so only the nested shape creates register pressure there;
     release builds (mem2reg) spill on all shapes"""
     src, tests, meta = "library;\n\n", "", []
     for k in range(nfn):
         n, shape = rng.randint(38, 75), rng.choice(list(shapes))
+        if k == 0 and "loopspill" in shapes: shape = "loopspill"      # always one loop with a spill inside
         s, ev = gen_spill_fn(rng, "f%d" % k, n, shape)
         src += s + "\n"; meta.append((n, shape))
-        for (a, b) in [(3, 5), (0, 0), (rng.randint(1, 1000), rng.randint(0, 40))]:
+        for (a, b) in [(3, 5), (0, 0), (rng.randint(1, 1000), rng.randint(3, 40))]:
             tests += "#[test]\nfn t_f%d_%d_%d() {\n    assert(f%d(%d, %d) == %d);\n}\n" % (k, a, b, k, a, b, ev(a, b))
     return sway.write_pkg(base, name, {"lib.sw": src + tests}), meta
 
